@@ -86,30 +86,44 @@ Theorem C07_failed_op_no_trace : forall eps s sid k p nid s',
 Proof. exact failed_place_no_trace. Qed.
 Print Assumptions C07_failed_op_no_trace.
 
+(* Session.Allocate / Pipeline on a placeable task whose job holds no other Allocated task:
+   whatever the reason of the error -- unknown job, unknown node, node refusing the task,
+   dispatch (AddBindTask) refused (fix c8b10ae) -- the session is sess_eqv to the one before *)
 Theorem C07_failed_ssn_place_no_trace : forall eps jr s k p nid,
+  sess_ok s -> placeable s p nid ->
+  (forall j, jobs s !! t_job p = Some j -> idx_set (j_index j) Allocated = ∅) ->
+  let r := ssn_place_with eps jr s k (t_id p) nid in
+  snd r = RErr ->
+  sess_eqv s (fst r) /\ binds (fst r) = binds s /\ evicts (fst r) = evicts s /\ stmts (fst r) = stmts s.
+Proof. exact failed_ssn_place_no_trace. Qed.
+Print Assumptions C07_failed_ssn_place_no_trace.
+
+(* ... and when the task cannot even be placed, no event handler is called *)
+Theorem C07_failed_ssn_place_no_handler_call : forall eps jr s k p nid,
   sess_ok s -> heap s !! t_id p = Some p -> t_status p = Pending -> t_node p = None -> jknown s p ->
   (jobs s !! t_job p = None \/ nodes s !! nid = None \/
    exists n e, nodes s !! nid = Some n /\ node_add eps n (placed_obj s k p nid) = inr e) ->
   let r := ssn_place_with eps jr s k (t_id p) nid in
   snd r = RErr /\ sess_eqv s (fst r) /\ binds (fst r) = binds s /\ evicts (fst r) = evicts s /\
   stmts (fst r) = stmts s /\ hlog (fst r) = hlog s.
-Proof. exact failed_ssn_place_no_trace. Qed.
-Print Assumptions C07_failed_ssn_place_no_trace.
+Proof. exact failed_ssn_place_no_trace_cause. Qed.
+Print Assumptions C07_failed_ssn_place_no_handler_call.
 
-(* the remaining exception (known finding C07-session-allocate-dispatch-refused-keeps-allocation) *)
-Theorem C07_ssn_allocate_dispatch_refused_refuted :
+(* the dispatch loop before fix c8b10ae kept the allocation of a task whose bind was refused
+   (former known finding C07-session-allocate-dispatch-refused-keeps-allocation) *)
+Theorem C07_dispatch_all_prefix_refuted :
   exists s tid nid,
     ledger_okb (heap s) (jobs s) (nodes s) = true /\
     (t_status <$> heap s !! tid) = Some Pending /\
     (heap s !! tid ≫= t_node) = None /\
     on_no_node s tid = true /\
-    snd (ssn_place ex_eps s KAllocate tid nid) = RErr /\
-    let s' := fst (ssn_place ex_eps s KAllocate tid nid) in
+    snd (ssn_place_dprefix ex_eps s KAllocate tid nid) = RErr /\
+    let s' := fst (ssn_place_dprefix ex_eps s KAllocate tid nid) in
     (t_status <$> heap s' !! tid) = Some Allocated /\
     (heap s' !! tid ≫= t_node) = Some nid /\
     (t_id <$> (nodes s' !! nid ≫= fun n => n_tasks n !! tid)) = Some tid.
-Proof. exact ssn_allocate_dispatch_refused_refuted. Qed.
-Print Assumptions C07_ssn_allocate_dispatch_refused_refuted.
+Proof. exact dispatch_all_prefix_refuted. Qed.
+Print Assumptions C07_dispatch_all_prefix_refuted.
 
 (* ---- 5. Discard restores the session ---- *)
 Theorem C07_sk_determines : forall s s',
@@ -181,7 +195,7 @@ Theorem C07_ledger_okb_sound : forall s,
 Proof. exact ledger_okb_sound. Qed.
 Print Assumptions C07_ledger_okb_sound.
 
-(* ---- the record of the three repaired defects (pre-fix variants, C07/Refuted.v) ---- *)
+(* ---- the record of the other repaired defects (pre-fix variants, C07/Refuted.v) ---- *)
 Theorem C07_unevict_prefix_refuted :
   exists s sid tid,
     ledger_okb (heap s) (jobs s) (nodes s) = true /\
@@ -230,6 +244,10 @@ Proof. exact ex_evictable. Qed.
 Example C07_ex_txn_pre :
   Forall (tx_pre ex_sess) ex_txn /\ NoDup (map tx_tid ex_txn) /\ default [] (stmts ex_sess !! 1%positive) = [].
 Proof. exact ex_txn_pre. Qed.
+Example C07_ex_dispatch_refused :
+  placeable d_sess (ex_task 1) 1 /\ snd (ssn_place ex_eps d_sess KAllocate 1 1) = RErr /\
+  sess_sameb d_sess (fst (ssn_place ex_eps d_sess KAllocate 1 1)) = true.
+Proof. exact ex_dispatch_refused. Qed.
 Example C07_ex_place_ok : snd (place_with ex_eps ex_sess 1 KAllocate (ex_task 1) 1) = ROk.
 Proof. exact ex_place_ok. Qed.
 Example C07_ex_place_fails : snd (place_with ex_eps ex_sess 1 KAllocate (ex_task 1) 9) = RErr.
